@@ -58,9 +58,10 @@ LEVEL_TEXT = ("Lean 4 theorems (all networks, unbounded) about an executable mod
 LEVEL_NOTE = ("Trusted: Lean kernel; the statements in Props/C14.lean including the hand-written specification tables "
               "(which flags each observation type needs, the positional-misclosure formulas); the translator "
               "tools/gen/c14_revision.py (validated by the correspondence); harness, generator, comparator. "
-              "C14_results_equal_deletion (abstract step/adjust) is kept; its hypothesis 'the solvers are functions of the view' "
-              "is discharged for the executed models PE.projectEquations + Ls.Net.netSolve by "
-              "C14_pe_solution_equals_deletion_partial, whose models are tied to the C++ by C05/C08/C01's streams (drv_pe, "
+              "C14_results_equal_deletion (abstract step/adjust) is kept and is NOT instantiated with the executed models; "
+              "instead 'results' is a separate theorem on PE.projectEquations + Ls.Net.netSolve for the position-stable deletion "
+              "RevPE.delObs (C14_pe_solution_equals_deletion_partial; the two revision rules are identified under DirInStand by "
+              "C14_revision_is_project_equations_revision), whose models are tied to the C++ by C05/C08/C01's streams (drv_pe, "
               "drv_net), not by C14's.  ORACLE-ONLY in C14: the absolute-term stage inside the program flow "
               "(vybocujici_abscl_, C14-F1 is a known finding there: the tree tests the homogenised entry, the documentation "
               "promises the positional misclosure; and for correlated blocks the homogenised vector of the deleted input is "
@@ -70,7 +71,11 @@ TECHNIQUE = "Lean 4 proof over a model partly regenerated from the source (trans
 TRUSTED = ["tools/gen/c14_revision.py: regex/mini-parser translator of local_revision.{h,cpp}, TestAbsTermVisitor and the "
            "StandPoint loop of revision_observations (interpreter TStmt.run / TCond.eval in Model/ReviseTypes.lean: std::set as a "
            "duplicate-free list in insertion order)",
-           "specification tables Gama.Rev.Spec.* in lean/Gama/Model/ReviseSpec.lean (part of the statements)"]
+           "specification tables Gama.Rev.Spec.* in lean/Gama/Model/ReviseSpec.lean (part of the statements)",
+           "tools/gen/c14_nets.py: generator and the oracle's delete_items (Lean's deleteItems is compared with what it is handed by "
+           "the model-side del operation of drv_revise)",
+           "the dictionary RevPE.netOf / delObs of lean/Gama/Model/RevisePE.lean (hand-written; point id = position in PD) between "
+           "C14's model and the executed model of project_equations()"]
 MODELLED = ["removals for numerical reasons (singular_coords, huge covariances in vyrovnani_, null_space) belong to C20; "
             "cases in which they fire are counted and left out of the comparison",
             "Acord2 (approximate coordinates, orientations) runs before the modelled code; its result is taken as input",
